@@ -116,6 +116,11 @@ def gen_sgr_line(rng, token, width):
                 else:
                     codes.extend([rng.choice([38, 48]), 2, rng.randrange(256), rng.randrange(256), rng.randrange(256)])
             out.append(["s", codes])
+        if rng.random() < 0.15:
+            # a hand-written hyperlink: opened and closed by separate OSC 8 sequences, possibly
+            # lines apart ("" closes); like the SGR state it carries across lines
+            out.append(["l", rng.choice(["", "", "https://e.x/%d" % rng.randrange(9), "file:///tmp/a=b;c=%d" % rng.randrange(9)]),
+                        rng.choice(["", "", "id=%d" % rng.randrange(9)])])
         w = " " + rng.choice(WORDS)
         if used + term.text_width(w) > width:
             break
@@ -136,8 +141,12 @@ def encode_pieces(pieces):
 
 def encode_sgr(items):
     out = []
-    for kind, v in items:
-        out.append(v if kind == "t" else "\x1b[%sm" % ";".join(map(str, v)))
+    for item in items:
+        kind, v = item[0], item[1]
+        if kind == "l":
+            out.append("\x1b]8;%s;%s\x1b\\" % (item[2] if v else "", v))
+        else:
+            out.append(v if kind == "t" else "\x1b[%sm" % ";".join(map(str, v)))
     return "".join(out)
 
 
